@@ -31,7 +31,7 @@ def post(ctx):
 
 
 def main(tier, seed):
-    items = standard_items(seed, tier, 30, 250, bench_quick=10)
+    items = standard_items(seed, tier, 18, 250, bench_quick=6)
     return analysis_check("C03", tier, seed, items=items, want=["normalized", "recs"],
                           builders=[C.b_normalized, C.b_recs], N=4 if tier == "quick" else 6, post=post,
                           assumptions=["the program judged is Polar's normalized program as exported by the harness "
